@@ -31,7 +31,7 @@ ANCHORS = [
     "raggedshape.py::ViewBase.ravel_multi_index", "raggedshape.py::ViewBase.unravel_multi_index", "raggedshape.py::ViewBase.index_array",
     "raggedshape.py::RaggedShape.size",
 ]
-CTORS = ["rows", "from_ragged", "tuplerows", "matrix2d_dtype", "pyrows", "mixedrows", "flat", "flat_nplens", "flatlist", "shape_tuple", "raggedshape", "flat_strided", "matrix"]
+CTORS = ["rows", "from_ragged", "typedrows_dtype", "tuplerows", "matrix2d_dtype", "pyrows", "mixedrows", "flat", "flat_nplens", "flatlist", "shape_tuple", "raggedshape", "flat_strided", "matrix"]
 FLOOR_TAGS = ["ctor:" + c for c in CTORS] + ["kind:b", "kind:i", "kind:u", "kind:f", "v:small", "v:extreme", "v:nonfinite",
                                              "reject", "saveload", "matrix-roundtrip", "order:F", "order:T", "order:strided", "norows", "allempty", "e-first", "e-last", "e-mid", "e-consec", "e-none", "big-repr", "lensdtype:narrow", "lensdtype:sum-overflows"]
 FLOOR_MONITORS = ["c01:readback", "c01:geometry", "c01:reject", "c01:result-independent", "inv:ragged"]
@@ -75,6 +75,15 @@ def build(case, flat, rows):
         if src_.size:
             scribble(src_.ravel())
         return new_, True
+    if ctor == "typedrows_dtype":
+        # the rows arrive as arrays of DIFFERENT element types (each holds its row exactly: the other signedness, a narrower type, doubles for
+        # small numbers) and the element type is requested with dtype=: every cell is converted on its own, nothing meets in a common type first
+        typed = []
+        for i, r in enumerate(rows):
+            cands = [d for d in ("uint64", "int64", "int32", "uint8", "float64", "int8") if dt.kind in "iu" and r.astype(d).tolist() == r.tolist() and
+                     (np.dtype(d).kind != "f" or bool(np.all(np.abs(r.astype(np.float64)) < 2 ** 53)))]
+            typed.append(r.astype(cands[(len(r) + i) % len(cands)]) if cands else r.copy())
+        return RA(typed, dtype=dt), True
     if ctor == "tuplerows":        # the rows in a tuple instead of a list
         return RA(tuple(r.copy() for r in rows), dtype=dt), True
     if ctor == "pyrows":
@@ -109,7 +118,37 @@ def eqrow(a, b, dtype=True):
     return same_array(a, b, dtype=dtype)
 
 
+NAT = -2 ** 63
+
+
+def run_dates(case):
+    """dates / durations (64-bit counts of a unit, one count standing for 'not a time'): read back, and converted to another unit"""
+    RA = CTX.lib.RaggedArray
+    lens, dt, tgt = case["lens"], np.dtype(case["dtype"]), np.dtype(case["unit2"])
+    flat = np.array(case["vals"], dtype=np.int64).view(dt)
+    tags = ["ctor:flat-dates", "kind:" + dt.kind] + gen.empty_placement(lens)
+    CTX.tick("c01:dates")
+    c = attempt(lambda: RA(flat.copy(), list(lens)))
+    desc = "RaggedArray of %s counts %s with row lengths %s" % (dt, short(case["vals"], 100), lens)
+    if not c.ok:
+        return violated("%s: the constructor raised %r" % (desc, c), tags)
+    ra = c.value
+    rows = gen.split_rows(flat, lens)
+    g = attempt(lambda: (ra.dtype, np.asarray(ra.lengths).tolist(), np.asarray(ra.ravel()), [np.asarray(r) for r in ra]))
+    if not g.ok or g.value[0] != dt or g.value[1] != list(lens) or not same_array(g.value[2], flat) or len(g.value[3]) != len(rows) or not all(same_array(x, y) for x, y in zip(g.value[3], rows)):
+        return violated("%s reads back as %s" % (desc, repr(g) if not g.ok else short(g.value, 200)), tags)
+    exp = flat.astype(tgt)
+    a = attempt(lambda: ra.astype(tgt))
+    if not a.ok or not isinstance(a.value, RA) or a.value.dtype != tgt or np.asarray(a.value.lengths).tolist() != list(lens) or not same_array(a.value.ravel(), exp):
+        return violated("%s: astype(%s) gives %s, numpy's conversion of the cells gives %s %s" % (desc, tgt, repr(a) if not a.ok else "%s %s" % (a.value.dtype, short(a.value.ravel(), 120)), exp.dtype, short(exp, 120)), tags + ["astype-unit"])
+    if not same_array(ra.ravel(), flat):
+        return violated("%s: astype(%s) changed the array" % (desc, tgt), tags)
+    return held(tags, len(lens) >= 2 and sum(lens) >= 2)
+
+
 def run(case):
+    if case.get("ctor") == "dates":
+        return run_dates(case)
     lens = case["lens"]
     dt = np.dtype(case["dtype"])
     n, tot = len(lens), sum(lens)
@@ -474,8 +513,17 @@ def directed():
             c = mk_case(lens, "int64", "mixedrows", "small", vals=[1, 0, 100, 7, 1, 0][:sum(lens)])
             c["rowdtypes"] = rd
             yield c
+    for dtype, vals_ in (("uint64", [2 ** 63 + 1, 7, 1, 2, 3, 2 ** 64 - 1]), ("int64", [2 ** 53 + 1, 4, 5, -2 ** 63, 2 ** 63 - 1, 9]), ("uint64", [1, 2, 2 ** 53 + 1, 2 ** 63, 5, 6]), ("int64", [-1, -2, 2 ** 62 + 1, 3, 4, 5])):
+        for lens in ([2, 3, 1], [1, 0, 2, 3], [3, 3], [2, 1, 0, 3]):
+            yield mk_case(lens, dtype, "typedrows_dtype", "extreme", vals=vals_[:sum(lens)])
+    # dates and durations: the same scalar class for every unit -- a conversion between two units is a real conversion
+    for d1, d2 in (("M8[s]", "M8[D]"), ("M8[D]", "M8[s]"), ("m8[ms]", "m8[s]"), ("m8[s]", "m8[ms]"), ("M8[s]", "M8[s]"), ("m8[h]", "m8[m]"), ("M8[ms]", "M8[us]")):
+        for lens in ([2, 0, 3, 1], [3, 3], [0, 0, 4], [1]):
+            vals_ = [[86400 * 3, 90000, NAT, 1, -86400, 7 * 3600 * 1000 + 5][(i * 5 + len(lens)) % 6] for i in range(sum(lens))]
+            yield {"ctor": "dates", "lens": lens, "dtype": d1, "unit2": d2, "vals": vals_}
     for dtype in gen.DT_ALL:
         yield mk_case([2, 0, 3, 1], dtype, "flat", "extreme", rng=rng, saveload=True)
+        yield mk_case([2, 0, 3, 1], dtype, "typedrows_dtype", "extreme", rng=rng)
         yield mk_case([0, 3, 0, 0], dtype, "rows", "extreme", rng=rng)
     for dtype in gen.DT_FLOAT:
         yield mk_case([2, 0, 3, 1], dtype, "flat", "nonfinite", rng=rng, saveload=True)
